@@ -12,8 +12,60 @@ pub struct C04Prop;
 pub static C04: C04Prop = C04Prop;
 
 /// small base set for the directed enumeration: generated from fixed seeds + two corpus files
+/// a file that uses every construct of the supported grammar once
+fn kitchen_sink() -> crate::smlref::RFile {
+    use crate::smlref::*;
+    let e = |name: u8, value: RValue| REntry { name: Hx(vec![1, 0, name, 8, 0, 0xff]), status: None, val_time: None, unit: None, scaler: None, value, sig: None };
+    let mut entries = vec![
+        e(1, RValue::Bool(true)),
+        e(2, RValue::Bytes(Hx(b"hello, meter 0123456789".to_vec()))),
+        e(3, RValue::I8(-3)),
+        e(4, RValue::I16(-300)),
+        e(5, RValue::I32(-70000)),
+        e(6, RValue::I64(-5_000_000_000)),
+        e(7, RValue::U8(200)),
+        e(8, RValue::U16(60000)),
+        e(9, RValue::U32(4_000_000_000)),
+        e(10, RValue::U64(0x1122_3344_5566_7788)),
+        e(11, RValue::ListTime(0x0102_0304)),
+        e(12, RValue::Bytes(Hx(vec![]))),
+    ];
+    entries[0].status = Some(RStatus::S8(0x82));
+    entries[1].status = Some(RStatus::S16(0x0182));
+    entries[2].status = Some(RStatus::S32(0x0001_0182));
+    entries[3].status = Some(RStatus::S64(0x01_0000_0182));
+    entries[4].val_time = Some(77);
+    entries[5].unit = Some(30);
+    entries[6].scaler = Some(-1);
+    entries[7].sig = Some(Hx(vec![0xaa, 0xbb]));
+    RFile {
+        msgs: vec![
+            RMsg { tid: Hx(vec![1, 2, 3, 4]), group: 0, abort: 0, body: RBody::Open { codepage: Some(Hx(vec![0x49])), client_id: Some(Hx(vec![9, 9])), req_file_id: Hx(vec![5, 6, 7]), server_id: Hx(vec![0x0a, 1, 2, 3, 4, 5, 6, 7, 8, 9]), ref_time: Some(123_456), version: Some(1) } },
+            RMsg { tid: Hx(vec![1, 2, 3, 5]), group: 0, abort: 0, body: RBody::GetList { client_id: Some(Hx(vec![])), server_id: Hx(vec![0x0a, 1, 2, 3, 4, 5, 6, 7, 8, 9]), list_name: Some(Hx(vec![1, 0, 98, 10, 255, 255])), sensor_time: Some(1000), entries, sig: Some(Hx(vec![0xcc])), gateway_time: Some(2000) } },
+            RMsg { tid: Hx(vec![1, 2, 3, 6]), group: 0, abort: 0, body: RBody::Close { sig: Some(Hx(vec![0xdd, 0xee])) } },
+        ],
+    }
+}
+
 fn base_set() -> Vec<Vec<MsgScn>> {
     let mut v = Vec::new();
+    // every construct once, in the standard and in the vendor time encoding
+    for (i, prof) in [
+        smlgen::Profile::plain(),
+        smlgen::Profile { nonminimal: 0, holley: 100, any_width: false, short_crc: false },
+    ]
+    .iter()
+    .enumerate()
+    {
+        let mut rng = Rng::new(0xC04_5171 + i as u64);
+        let f = kitchen_sink();
+        let (bytes, msgs) = smlgen::encode_file(&f, &mut rng, prof);
+        match crate::smlref::ref_read(&bytes) {
+            Ok(t) if t == f => {}
+            _ => panic!("HARNESS: the kitchen-sink base file does not read back"),
+        }
+        v.push(msgs);
+    }
     for s in 0..4u64 {
         let mut rng = Rng::new(0xC04_0000 + s);
         let (_, _, msgs) = smlgen::gen_valid(&mut rng, 3);
